@@ -32,7 +32,7 @@ class DefectFound(AnalysisError):
     its own instance still does so."""
 
     rule_id = "INTERP-FAULT"
-    rule_desc = "the symbolic interpretation of a function meets no definite fault: no read of an np.empty slot before a store reaches it, no index outside a literal extent, no division by an identically zero value"
+    rule_desc = "the symbolic interpretation of a function meets no definite fault: no read of an np.empty slot before a store reaches it, no index outside a literal extent or below zero, no axis or index an array does not have, no name bound nowhere, no division by an identically zero value"
 
     def __init__(self, file, function, line, construct, message):
         AnalysisError.__init__(self, "%s::%s line %s: %s" % (file, function, line, message))
